@@ -45,6 +45,9 @@ type Ctx struct {
 	facts    []string
 	ufApps   map[string][]ufApp
 	injective map[string]bool
+	specDepth int
+	noMerge   bool
+	mergeOK, mergeFail int
 	hashBuf  map[*value][]*Term
 	protoTab []protoRec
 	cover    map[*ssa.Function]bool
@@ -143,6 +146,9 @@ func (c *Ctx) decide(conds []*Term, pos token.Pos) int {
 		if cd == TTrue {
 			return i
 		}
+	}
+	if c.specDepth > 0 {
+		panic(specAbort{"decision needed"})
 	}
 	if c.concrete != nil {
 		for i, cd := range conds {
@@ -254,6 +260,9 @@ func (c *Ctx) decideBool(cond *Term, pos token.Pos) bool {
 
 // decideFree picks among n unconditional alternatives (e.g. map iteration orders).
 func (c *Ctx) decideFree(n int) int {
+	if c.specDepth > 0 {
+		panic(specAbort{"decision needed"})
+	}
 	if c.concrete != nil {
 		return 0
 	}
